@@ -1660,27 +1660,45 @@ fn compile_expr(
                 ty: ty.clone(),
             }
         }
-        ETraitMethod { ty, .. } => {
-            // ETraitMethod should only appear as the func of ECall
-            // If it appears standalone, we can't resolve the implementation without knowing the self type
-            panic!(
-                "ETraitMethod should only appear as the function in ECall, not standalone. Type: {:?}",
-                ty
-            );
+        // A method reference that is not the callee of a call has no implementation to refer to
+        // before the receiver type is known; report it instead of giving up.
+        ETraitMethod {
+            trait_name,
+            method_name,
+            ty,
+            astptr,
         }
-        EDynTraitMethod { ty, .. } => {
-            panic!(
-                "EDynTraitMethod should only appear as the function in ECall, not standalone. Type: {:?}",
-                ty
+        | EDynTraitMethod {
+            trait_name,
+            method_name,
+            ty,
+            astptr,
+        } => {
+            let message = format!(
+                "method {}::{} can only be called; using it as a value is not supported",
+                trait_name.0, method_name.0
             );
+            diagnostics.push(
+                Diagnostic::new(Stage::other("compile"), Severity::Error, message)
+                    .with_range(astptr.as_ref().map(|ptr| ptr.text_range())),
+            );
+            emissing(ty)
         }
-        EInherentMethod { ty, .. } => {
-            // EInherentMethod should only appear as the func of ECall
-            // If it appears standalone, we can't resolve the implementation without knowing the self type
-            panic!(
-                "EInherentMethod should only appear as the function in ECall, not standalone. Type: {:?}",
-                ty
+        EInherentMethod {
+            receiver_ty,
+            method_name,
+            ty,
+            astptr,
+        } => {
+            let message = format!(
+                "method {} of {:?} can only be called; using it as a value is not supported",
+                method_name.0, receiver_ty
             );
+            diagnostics.push(
+                Diagnostic::new(Stage::other("compile"), Severity::Error, message)
+                    .with_range(astptr.as_ref().map(|ptr| ptr.text_range())),
+            );
+            emissing(ty)
         }
         EToDyn {
             trait_name,
